@@ -31,6 +31,15 @@ theorem tool_enumeration_order (i : ToolInput) {files' : List PathParts} (h : i.
     runTool { i with files := files' } = runTool i :=
   pl_runTool_files_perm i h
 
+/-- The file list handed to mypy is CANONICAL (repair 67957ce: `sorted(root.glob(...))`): two enumeration orders of the
+    directory give the same sorted listing, hence literally the same discovery result — the same files in the same order.
+    (Before the repair the list order followed the enumeration; mypy's build-graph order followed it, and with it the
+    order of `api.modules` — observable when two modules are written to one stub path, K10.) -/
+theorem mypy_input_canonical (root : PathParts) (b : Bool) {files files' : List PathParts} (h : files ~ files') :
+    discoverSorted root files b = discoverSorted root files' b := by
+  unfold discoverSorted
+  rw [pl_sortPaths_perm h]
+
 /-- … in particular the analysed modules, in walk order, are the same -/
 theorem get_api_enumeration_order (i : ToolInput) {files' : List PathParts} (h : i.files ~ files') :
     getApi { i with files := files' } = getApi i :=
